@@ -304,12 +304,25 @@ structure WspSess where
   attached : Option (List Char) := none    -- s.cid / s.source: registry key being consumed
   deriving Repr
 
+/-- wsp Session.checkPermission: the pull right, as saved now, of the control channel's user on the
+    path the control channel was opened on -/
+def wspPermitted (cfg : Cfg) (w : World) (s : WspSess) : Bool :=
+  if !(cfg.wspPlayChecks && w.authOn) then true
+  else match getUser cfg w.users s.conn.user with
+    | none => false
+    | some u => u.validatePermission cfg s.conn.path .pull
+
+/-- wsp Session.acceptsDataChannel -/
+def wspAccepts (cfg : Cfg) (w : World) (s : WspSess) (dc : WsConn) : Bool :=
+  if !(cfg.wspJoinChecks && w.authOn) then true
+  else dc.user = s.conn.user && dc.path = s.conn.path && wspPermitted cfg w s
+
 /-- handshakeDataChannel: status code of the JOIN answer, and the session with the data channel set -/
 def wspJoin (cfg : Cfg) (w : World) (sess : Option WspSess) (dc : WsConn) : Nat × Option WspSess :=
   match sess with
   | none => (404, none)
   | some s =>
-    if cfg.wspJoinChecks && w.authOn && !(dc.user = s.conn.user && dc.path = s.conn.path) then (403, none)
+    if !wspAccepts cfg w s dc then (403, none)
     else (200, some { s with data := some dc })
 
 def wspMethodAllowed (st : Status) (m : Method) : Bool :=
@@ -317,13 +330,6 @@ def wspMethodAllowed (st : Status) (m : Method) : Bool :=
   | .ready => m = .setup || m = .play
   | .playing => m = .play || m = .pause
   | _ => !(m = .play || m = .record || m = .pause)
-
-/-- wsp Session.checkPermission (added by the fix): the pull right of the control channel's user, now -/
-def wspPermitted (cfg : Cfg) (w : World) (s : WspSess) : Bool :=
-  if !(cfg.wspPlayChecks && w.authOn) then true
-  else match getUser cfg w.users s.conn.user with
-    | none => false
-    | some u => u.validatePermission cfg s.path .pull
 
 /-- wsp Session.onRequest for a WRAPped RTSP request (SETUP restricted to the valid TCP play transport
     or an invalid one: `trOk`) -/
